@@ -532,6 +532,51 @@ func large(r *rand.Rand) (string, int, []byte) {
 	}
 }
 
+// deepNest: a container option nested in itself to a random depth up to what 4096 octets allow (4RD: 4 octets per
+// level -> ~1000 levels, IA_TA 8, IA_NA/IA_PD 16, IA address 28, IA prefix 29, vendor-less relay 38), with a small
+// leaf, bare or inside one relay.
+func deepNest(r *rand.Rand) []byte {
+	type cont struct {
+		code int
+		pre  []byte
+	}
+	cs := []cont{{97, nil}, {4, []byte{0, 0, 0, 1}}, {3, make([]byte, 12)}, {25, make([]byte, 12)}, {5, make([]byte, 24)}, {26, append(make([]byte, 8), append([]byte{64}, make([]byte, 16)...)...)}}
+	c := cs[r.IntN(len(cs))]
+	per := 4 + len(c.pre)
+	maxd := (4096 - 60) / per
+	d := 1 + r.IntN(min(maxd, 140))
+	if r.IntN(4) == 0 { // the depth classes around powers of two (printing a nest costs about depth^2 per observer: the deepest ones are rare)
+		d = []int{63, 64, 65, 127, 128, 129, 255, 256, 257, 257, 300, 511, 513}[r.IntN(13)]
+		d = max(1, min(d, maxd))
+	}
+	v := []byte{}
+	if r.IntN(2) == 0 {
+		v = tlv(13, []byte{0, 0, 'o', 'k'})
+	}
+	for i := 0; i < d; i++ {
+		v = tlv(c.code, append(append([]byte{}, c.pre...), v...))
+	}
+	if r.IntN(4) == 0 && c.code != 97 { // mixed: the nest sits inside a 4RD option
+		v = tlv(97, v)
+	}
+	msg := append([]byte{byte(1 + r.UintN(11)), 1, 2, 3}, v...)
+	if r.IntN(4) == 0 && len(msg) < 4000 {
+		h := make([]byte, 34)
+		h[0] = 12
+		msg = append(h, tlv(9, msg)...)
+	}
+	// relay nests: up to 107 levels fit
+	if r.IntN(8) == 0 {
+		msg = []byte{1, 1, 2, 3}
+		for k := 1 + r.IntN(107); k > 0 && len(msg)+38 <= 4096; k-- {
+			h := make([]byte, 34)
+			h[0] = byte(12 + r.UintN(2))
+			msg = append(h, tlv(9, msg)...)
+		}
+	}
+	return msg
+}
+
 func oneCase(r *mon.Rec, i int, isTyped func(int) bool, typedList []int) {
 	rng := r.Rand("c03", i)
 	switch k := rng.IntN(20); {
@@ -634,9 +679,14 @@ func oneCase(r *mon.Rec, i int, isTyped func(int) bool, typedList []int) {
 	case k < 19: // raw frames
 		run(r, "rawconn.ReadFrom", 0, frames(rng), "frames")
 	default: // 2% large inputs (here 5%)
-		if rng.IntN(3) == 0 {
+		if k := rng.IntN(12); k < 4 {
 			e, c, b := large(rng)
 			run(r, e, c, b, "large")
+		} else if k == 4 {
+			// deep nests that are still small enough to be printed (<= 4096 octets): every option that can contain
+			// options, nested in itself as deep as the size allows, at every depth class -- printing indents per level
+			b := deepNest(rng)
+			run(r, "dhcpv6.FromBytes", 0, b, "deep-nest")
 		} else {
 			run(r, "rawconn.ReadFrom", 0, frames(rng), "frames")
 		}
